@@ -32,6 +32,7 @@ type Run struct {
 	File     bool   `json:"file_mode"`
 	SQLTable bool   `json:"sql_created"`
 	Seed     int64  `json:"seed"`
+	SeqPct   int    `json:"seq_pct,omitempty"` // share of group statements whose predicate carries "OR id = 7777777" (never true): forces the sequential-scan path
 	// History of a failing run (for replay by the history checker)
 	History []HOp `json:"history,omitempty"`
 }
@@ -130,13 +131,17 @@ func execute(r *Run, st *stats) (*vf.Failure, []HOp) {
 					} else {
 						op.Grp = rng.Intn((r.Rows + 1) / 2)
 					}
+					or := ""
+					if r.SeqPct > 0 && rng.Intn(100) < r.SeqPct {
+						or = " OR id = 7777777"
+					}
 					if rng.Intn(2) == 0 {
 						op.Kind = "w"
 						op.Val = int(atomic.AddInt64(&valCounter, 1))
-						op.SQL = fmt.Sprintf("UPDATE t SET v = %d WHERE g%d = %d;", op.Val, op.Col, op.Grp)
+						op.SQL = fmt.Sprintf("UPDATE t SET v = %d WHERE g%d = %d%s;", op.Val, op.Col, op.Grp, or)
 					} else {
 						op.Kind = "r"
-						op.SQL = fmt.Sprintf("SELECT id, v FROM t WHERE g%d = %d;", op.Col, op.Grp)
+						op.SQL = fmt.Sprintf("SELECT id, v FROM t WHERE g%d = %d%s;", op.Col, op.Grp, or)
 					}
 				default: // C
 					if rng.Intn(2) == 0 {
@@ -176,7 +181,7 @@ func execute(r *Run, st *stats) (*vf.Failure, []HOp) {
 	}
 	done := make(chan struct{})
 	go func() { wg.Wait(); close(done) }()
-	lastProgress, lastCount := time.Now(), int64(0)
+	idleTicks, lastCount, lastTick := 0, int64(0), time.Now() // idle time is counted in observed ticks (see vf.WithTimeout)
 	for {
 		select {
 		case <-done:
@@ -189,9 +194,15 @@ func execute(r *Run, st *stats) (*vf.Failure, []HOp) {
 			return checkHistory(r, hist, final, st), hist
 		case <-time.After(500 * time.Millisecond):
 			n := atomic.LoadInt64(&completed)
+			now := time.Now()
+			gap := now.Sub(lastTick)
+			lastTick = now
 			if n != lastCount {
-				lastCount, lastProgress = n, time.Now()
-			} else if time.Since(lastProgress) > 120*time.Second {
+				lastCount, idleTicks = n, 0
+			} else if gap < 1200*time.Millisecond {
+				idleTicks++ // a longer gap means this process was not scheduled: not charged
+			}
+			if idleTicks > 240 {
 				buf := make([]byte, 1<<20)
 				k := runtime.Stack(buf, true)
 				mu.Lock()
@@ -415,7 +426,7 @@ func countKind(h []HOp, k string) int {
 	return n
 }
 
-const rule = "Case = one run of 2-32 client goroutines calling SamehadaDB.ExecuteSQL concurrently (GOMAXPROCS 2/4/16, in-memory and file mode, SQL- and catalog-created table t(id,g1,g2,v) with 4-60 rows and overlapping groupings g1 = id%2, g2 = id/2): family A (4-32 clients, disjoint groups) = multi-row UPDATE t SET v=<unique> WHERE g1=<x> and SELECT id,v WHERE g1=<x> -> inside one answer all rows of a group carry one value and an overwritten value never comes back to the same client; family B (4-8 clients, overlapping groupings g1/g2, 8-15 calls each) -> the recorded history (call/return stamps from a shared logical clock) must be linearizable against a multi-register in which an update writes its whole group at once (so a reader seeing a group half-updated, a lost or doubled update, or a stale read after return all fail), checked with porcupine; family C = concurrent INSERTs of unique ids and single-row updates on 2-3 hot rows (internal abort/retry frequent) -> every id exactly once, every row's final value written by an update of that row. Every reply must have its own statement's shape (column count, ids of the requested group). A watchdog reports a run in which no call completed for 120 s. Non-trivial = a run with at least two calls overlapping in real time, one of them a write."
+const rule = "Case = one run of 2-32 client goroutines calling SamehadaDB.ExecuteSQL concurrently (GOMAXPROCS 2/4/16, in-memory and file mode, SQL- and catalog-created table t(id,g1,g2,v) with 4-60 rows and overlapping groupings g1 = id%2, g2 = id/2): family A (4-32 clients, disjoint groups) = multi-row UPDATE t SET v=<unique> WHERE g1=<x> and SELECT id,v WHERE g1=<x> (in half of the runs 50-100% of these statements carry a never-true OR branch, which forces the sequential-scan path instead of the index range scan) -> inside one answer all rows of a group carry one value and an overwritten value never comes back to the same client; family B (4-8 clients, overlapping groupings g1/g2, 8-15 calls each) -> the recorded history (call/return stamps from a shared logical clock) must be linearizable against a multi-register in which an update writes its whole group at once (so a reader seeing a group half-updated, a lost or doubled update, or a stale read after return all fail), checked with porcupine; family C = concurrent INSERTs of unique ids and single-row updates on 2-3 hot rows (internal abort/retry frequent) -> every id exactly once, every row's final value written by an update of that row. Every reply must have its own statement's shape (column count, ids of the requested group). A watchdog reports a run in which no call completed for 120 s. Non-trivial = a run with at least two calls overlapping in real time, one of them a write."
 
 var assumptions = []string{
 	"schedules are whatever the Go runtime produces; not reproducible by seed (the recorded history is the reproducible unit; replay re-checks it and re-runs the workload)",
@@ -441,6 +452,9 @@ func TestConcurrent(t *testing.T) {
 			r.Clients, r.OpsPer, r.Rows = 4+rng.Intn(5), 8+rng.Intn(8), 4+rng.Intn(3)
 		default:
 			r.Clients, r.OpsPer, r.Rows = 4+rng.Intn(13), 20+rng.Intn(30), 2+rng.Intn(2)
+		}
+		if r.Family != "C" {
+			r.SeqPct = []int{0, 0, 50, 100}[rng.Intn(4)]
 		}
 		st := &stats{}
 		f, hist := execute(r, st)
